@@ -991,80 +991,12 @@ func earlyReferenceImplRules(c *core.Ctx, r *core.Report, rule string) {
 // (the map the definition scan ranges over: what is missing there gets no definition and is invisible to every
 // lookup by type): no path from a successful fetch to the next iteration skips the map update.
 func componentMapCompleteRules(c *core.Ctx, r *core.Report, rule string) {
-	srGet := c.IfaceMethod("container", "SingletonRegistry", "GetSingleton")
-	srNames := c.IfaceMethod("container", "SingletonRegistry", "GetSingletonNames")
-	if srGet == nil || srNames == nil {
-		r.Undecided(rule, "role:SingletonRegistry", "", "SingletonRegistry.GetSingleton / GetSingletonNames not found")
-		return
-	}
-	n := 0
-	namesInvokers := map[*ssa.Function]bool{}
-	for _, fn := range c.Invokers(srNames) {
-		namesInvokers[fn] = true
-	}
-	for _, fn := range c.Invokers(srGet) {
-		if core.PkgOf(fn) == nil || !strings.HasSuffix(core.PkgOf(fn).Pkg.Path(), "container/factory") {
-			continue
+	prepareRules(c, r, func(row string) string {
+		if row == "order-free" {
+			return ""
 		}
-		// the registration loop itself, or a helper its body was moved into
-		if !namesInvokers[fn] && !withinRole(c, fn, func(f *ssa.Function) bool { return namesInvokers[f] }, 3) {
-			continue
-		}
-		for _, ci := range core.Calls(fn) {
-			call, ok := ci.(*ssa.Call)
-			if !ok || !core.IsInvoke(call.Common(), srGet) {
-				continue
-			}
-			loop := core.InnermostLoop(fn, call.Block())
-			// the map updates that record the fetched value
-			avoid := map[*ssa.BasicBlock]bool{}
-			for _, b := range fn.Blocks {
-				for _, in := range b.Instrs {
-					if mu, isMU := in.(*ssa.MapUpdate); isMU {
-						if ex, isEx := core.Norm(mu.Value).(*ssa.Extract); isEx && ex.Tuple == ssa.Value(call) {
-							avoid[b] = true
-						}
-					}
-				}
-			}
-			if len(avoid) == 0 {
-				continue // recorded elsewhere: the registered-components rule of C07 looks at it
-			}
-			n++
-			// from the fetch, can the next iteration - or a return that reports no error - be reached without passing
-			// a recording block?
-			seen := map[*ssa.BasicBlock]bool{}
-			skip := false
-			var walk func(b *ssa.BasicBlock)
-			walk = func(b *ssa.BasicBlock) {
-				if seen[b] || avoid[b] || skip {
-					return
-				}
-				seen[b] = true
-				if ret, isRet := b.Instrs[len(b.Instrs)-1].(*ssa.Return); isRet {
-					if !core.ReturnsError(fn.Signature) || core.ClassifyReturn(ret) != core.RetError {
-						skip = true
-					}
-					return
-				}
-				for _, s := range b.Succs {
-					if loop != nil && s == loop.Header {
-						skip = true
-						return
-					}
-					if loop != nil && !loop.Blocks[s] {
-						continue // leaving the loop early is judged by the rules about its exits
-					}
-					walk(s)
-				}
-			}
-			if !avoid[call.Block()] {
-				walk(call.Block())
-			}
-			r.Check(!skip, rule, "component-map-complete@"+core.FnName(fn), c.Pos(call.Pos()), "every singleton the registration loop fetches is recorded in the component map before the next one is fetched")
-		}
-	}
-	r.Floor(rule, "registration loops recording fetched singletons", n, 1)
+		return rule
+	})
 }
 
 // globalSettingsRules: app.Settings keeps every option it is given, in order, however often and with whatever it is
